@@ -35,8 +35,9 @@ impl SingleQuery {
             format!("?{}", self.var_order.len())
         } else {
             for i in 0..self.var_order.len() {
-                let p = &self.var_order[i].value;
-                if value.eq(p) {
+                let p = &self.var_order[i];
+                // a variable may only share the slot of the same variable, never the slot of a literal
+                if !p.internal && value.eq(&p.value) {
                     return format!("?{}", i + 1);
                 }
             }
